@@ -1291,7 +1291,7 @@ def process_gran(run, st, rng, n):
         z = rng.choice(tzdays.ZONES)
         t = tzdays.day_start(dt.date(rng.randrange(2014, 2025), rng.randrange(1, 13), rng.randrange(1, 28)), z)
         m = rng.randrange(1, 12)
-        style = rng.choice(["hours", "days", "months", "mixed", "regular"])
+        style = rng.choice(["hours", "days", "months", "mixed", "regular", "weekdays", "officehours"])
         ts = [t]
         for _ in range(m):
             if style == "hours":
@@ -1308,6 +1308,16 @@ def process_gran(run, st, rng, n):
         if style == "regular":
             d = rng.choice([15, 30, 60, 120, 1440, 2 * 1440, 30 * 1440, 31 * 1440, 60 * 1440])
             ts = [t + i * d for i in range(m + 1)]
+        if style in ("weekdays", "officehours"):
+            # rows on Mon-Fri only / on 09:00-16:00 of Mon-Fri only: pandas infers BusinessDay / BusinessHour
+            z = "UTC"
+            d0 = dt.date(rng.randrange(2014, 2025), rng.randrange(1, 13), rng.randrange(1, 28))
+            days = [d0 + dt.timedelta(days=i) for i in range(rng.randrange(5, 25))]
+            days = [d for d in days if d.weekday() < 5]
+            if style == "weekdays":
+                ts = [tzdays.day_start(d, z) for d in days]
+            else:
+                ts = [tzdays.day_start(d, z) + 60 * h for d in days for h in range(9, 17)]
         dflt = rng.choice(["daily", "billing_bimonthly", "other"])
         idx = tz_index(ts, z)
         inf, inf_s = parse_inferred(idx)
